@@ -38,7 +38,9 @@ def run_one(args):
         shutil.copytree(repo, os.path.join(tmp, "repo"), ignore=shutil.ignore_patterns(".git", "__pycache__", "_test_minimized", "docs", "binder", "benchmarks"))
         r = subprocess.run(["patch", "-p1", "-s", "-i", os.path.join(d, "patch.diff")], cwd=os.path.join(tmp, "repo"), capture_output=True, text=True)
         baseline_keys = None
-        if r.returncode != 0:
+        if r.returncode != 0 or meta.get("needs_tree_of_commit"):
+            # (needs_tree_of_commit: the patch still applies, but a later `fix:` removed the code path through which the change broke the property -
+            # the change is a violation only on the tree it was written against)
             # a later `fix:` commit touched the same lines: evaluate the change on the tree it was written against (git history of /repo) and count only the
             # findings the change ADDS to what the checks report on that tree without it
             shutil.rmtree(os.path.join(tmp, "repo"))
